@@ -601,6 +601,11 @@ func stateFoundArrayItemBegin(s *Scanner, c byte) state {
 	}
 
 	r := stateBeginValue(s, c)
+	if r != scanContinue && s.annotation == annotationNone {
+		// A new item begins: the ban on annotations that follows the closing
+		// bracket of a previous non-empty array item ends here.
+		s.allowAnnotation = true
+	}
 	switch r { //nolint:exhaustive // It's okay.
 	case scanBeginLiteral:
 		s.found(lexeme.ArrayItemBegin)
